@@ -174,7 +174,11 @@ class Bisection1D:
         # find upper bound that respects max_boreholes
         if self.sim_params.max_boreholes is not None:
             num_coordinates_in_each = [len(x) for x in self.coordinates_domain]
-            x_r_idx = [idx for idx, x in enumerate(num_coordinates_in_each) if x < self.sim_params.max_boreholes][-1]
+            allowed = [idx for idx, x in enumerate(num_coordinates_in_each) if x < self.sim_params.max_boreholes]
+            if not allowed:
+                # a polygon-constrained domain may start above the cap (its smallest field has more than one borehole)
+                raise ValueError("max_boreholes is smaller than every candidate field of this search.")
+            x_r_idx = allowed[-1]
         else:
             x_r_idx = len(self.coordinates_domain) - 1
 
